@@ -167,6 +167,13 @@ def run(ctx):
                 if dk == "gcov" and dparam is None and e - s > 0:
                     cm = np.cov(X[s:e], rowvar=False, ddof=0).reshape(p, p)
                     ev = np.linalg.eigvalsh(cm)
+                    if not np.any(cm):
+                        # the sample covariance is EXACTLY the zero matrix (all rows of the slice equal): no rounding noise is involved, its determinant is 0 and the
+                        # documented error is the only admissible outcome -- for one column as for several
+                        ctx.count("outcome", "exactly-singular: error demanded")
+                        ctx.violation(f"{name}: all rows of X[{s}:{e}] are equal (sample covariance exactly 0) but evaluate returned {row.tolist()} instead of the documented error",
+                                      inp, {"what": "missing-error", "cost": name.split("(")[0]})
+                        continue
                     if ev.min() <= 1e-9 * max(1.0, ev.max()):
                         # numerically singular sample covariance: log det is pure rounding noise, whether the documented error is raised
                         # depends on the sign of that noise; neither a value nor the error can be demanded (outside "moderate dynamic range")
